@@ -66,3 +66,21 @@ Proof. intros Hr Hc Hr' Hc'. unfold key, digits.
 (* ... and collides from 12 x 12 on: grid cells (1,10) and (11,0) share the key "110" (known finding D10) *)
 Theorem key_collision_12 : key 1 10 = key 11 0 /\ (1%nat, 10%nat) <> (11%nat, 0%nat).
 Proof. split; [reflexivity|discriminate]. Qed.
+
+(* ------------------------------------------------------------------ principal stresses *)
+Lemma principal_R (a b c : R) : principal ROps (a, b, c) = ((a + c) / 2 + sqrt ((a - c) / 2 * ((a - c) / 2) + b * b), (a + c) / 2 - sqrt ((a - c) / 2 * ((a - c) / 2) + b * b)).
+Proof. unfold principal, two. cbn [add sub mul div nsqrt one ROps]. replace (1 + 1) with 2 by ring. reflexivity. Qed.
+
+(* both are eigenvalues of [[a, b], [b, c]] (roots of its characteristic polynomial); they are ordered; their sum is the trace and their
+   product the determinant *)
+Theorem principal_are_eigenvalues (a b c : R) : let '(l1, l2) := principal ROps (a, b, c) in
+  (a - l1) * (c - l1) - b * b = 0 /\ (a - l2) * (c - l2) - b * b = 0 /\ l2 <= l1 /\ l1 + l2 = a + c /\ l1 * l2 = a * c - b * b.
+Proof. rewrite principal_R. set (h := (a - c) / 2). set (r := sqrt (h * h + b * b)).
+  assert (Hr : r * r = h * h + b * b) by (unfold r; apply sqrt_sqrt; nra).
+  assert (Hr0 : 0 <= r) by (unfold r; apply sqrt_pos).
+  assert (Ha : a = (a + c) / 2 + h) by (unfold h; field). assert (Hc : c = (a + c) / 2 - h) by (unfold h; field).
+  set (m := (a + c) / 2) in *. clearbody m r h. subst a c.
+  split; [nra|]. split; [nra|]. split; [lra|]. split; [lra|nra]. Qed.
+(* an isotropic tensor -p I has both principal stresses equal to -p *)
+Theorem principal_isotropic (p : R) : principal ROps (- p, 0, - p) = (- p, - p).
+Proof. rewrite principal_R. replace ((- p - - p) / 2 * ((- p - - p) / 2) + 0 * 0) with 0 by field. rewrite sqrt_0. f_equal; field. Qed.
